@@ -518,6 +518,27 @@ pub fn verif_c21_preflight_private_batch_proofs(
     preflight_private_batch_proofs(proofs, num_private_batch_proofs, private_batch_verifier)
 }
 
+/// Verification hooks: read access to a committed prover's partial witness and
+/// circuit data, and a forwarder to the crate-private template validator.
+#[cfg(quantus_network_qp_zk_circuits_verif)]
+impl PublicBatchProver {
+    pub fn verif_partial_witness(&self) -> &PartialWitness<F> {
+        &self.partial_witness
+    }
+
+    pub fn verif_circuit_data(&self) -> &ProverCircuitData<F, C, D> {
+        &self.circuit_data
+    }
+}
+
+#[cfg(quantus_network_qp_zk_circuits_verif)]
+pub fn verif_verify_dummy_private_batch_template(
+    template: &ProofWithPublicInputs<F, C, D>,
+    private_batch_verifier: &VerifierCircuitData<F, C, D>,
+) -> Result<()> {
+    verify_dummy_private_batch_template(template, private_batch_verifier)
+}
+
 #[cfg(test)]
 mod tests {
     use super::*;
